@@ -157,6 +157,7 @@ Section Code.
 Variable idna : bytes -> option bytes.
 Variables off exp : Z.
 Variable guard : bool.
+Variable crit : bool.
 
 Notation conv := (ip_or_dns_name idna).
 
@@ -230,11 +231,11 @@ Definition valid_cn (n : names) : bool :=
   match n_cn n with Some c => (str_len c <? 64)%N | None => false end.
 
 Lemma dummy_cert_fields issuer now n c :
-  dummy_cert off exp issuer now n = Ok c ->
+  dummy_cert off exp crit issuer now n = Ok c ->
   c_issuer c = ca_subject issuer /\ c_signer c = ca_key issuer
   /\ c_sans c = map wire_gname (n_alt n)
   /\ c_cn c = (if valid_cn n then n_cn n else None)
-  /\ c_san_critical c = negb (valid_cn n)
+  /\ c_san_critical c = negb (if crit then valid_cn n || is_some (n_org n) else valid_cn n)
   /\ c_eku c = [EKU_SERVER_AUTH]
   /\ c_nb c = (now + off)%Z /\ c_na c = (now + off + exp)%Z
   /\ c_aki c = (match ca_ski issuer with Some s => s | None => ca_key_sha1 issuer end)
@@ -255,7 +256,7 @@ Qed.
 Lemma dummy_cert_total issuer now n :
   n_cn n <> Some [] -> n_org n <> Some [] ->
   (forall u, n_crl n = Some u -> is_ascii u = true) ->
-  exists c, dummy_cert off exp issuer now n = Ok c.
+  exists c, dummy_cert off exp crit issuer now n = Ok c.
 Proof.
   intros Hcn Horg Hcrl. unfold dummy_cert.
   assert (E1 : match n_cn n with
@@ -276,11 +277,11 @@ Qed.
 
 (* issue = get_cert_names then dummy_cert (the fresh store has no entry) *)
 Lemma issue_split issuer serial now r c :
-  issue idna off exp guard issuer serial now r = Ok c ->
-  exists n, get_cert_names idna guard serial r = Ok n /\ dummy_cert off exp issuer now n = Ok c.
+  issue idna off exp guard crit issuer serial now r = Ok c ->
+  exists n, get_cert_names idna guard serial r = Ok n /\ dummy_cert off exp crit issuer now n = Ok c.
 Proof.
   unfold issue, issue_on. destruct (get_cert_names idna guard serial r) as [n|e]; simpl; [|discriminate].
-  unfold store_get_cert. simpl. destruct (dummy_cert off exp issuer now n) as [c0|e] eqn:Ed; simpl; [|discriminate].
+  unfold store_get_cert. simpl. destruct (dummy_cert off exp crit issuer now n) as [c0|e] eqn:Ed; simpl; [|discriminate].
   intros H; inversion H; subst. exists n. auto.
 Qed.
 
@@ -316,9 +317,32 @@ Proof.
     left. exact Hp.
 Qed.
 
+(* the strict rule: an empty subject comes with a critical SAN, in both forms of the criticality expression *)
+Lemma subject_or_critical n c :
+  c_cn c = (if valid_cn n then n_cn n else None) ->
+  c_san_critical c = negb (if crit then valid_cn n || is_some (n_org n) else valid_cn n) ->
+  c_org c = n_org n ->
+  has_subject c || c_san_critical c = true.
+Proof.
+  intros Hccn Hcrit Horg. unfold has_subject. rewrite Hccn, Hcrit, Horg. unfold valid_cn.
+  destruct (n_cn n) as [v|]; [destruct (str_len v <? 64)%N; [reflexivity|]|];
+    destruct crit; destruct (n_org n); reflexivity.
+Qed.
+
+Lemma subject_iff_not_critical n c :
+  crit = true ->
+  c_cn c = (if valid_cn n then n_cn n else None) ->
+  c_san_critical c = negb (if crit then valid_cn n || is_some (n_org n) else valid_cn n) ->
+  c_org c = n_org n ->
+  c_san_critical c = negb (has_subject c).
+Proof.
+  intros -> Hccn Hcrit Horg. unfold has_subject. rewrite Hccn, Hcrit, Horg. unfold valid_cn.
+  destruct (n_cn n) as [v|]; [destruct (str_len v <? 64)%N|]; destruct (n_org n); reflexivity.
+Qed.
+
 (* T1: the served certificate verifies for the requested identity *)
 Theorem verifies issuer serial now tz r c cs g :
-  issue idna off exp guard issuer serial (now + tz) r = Ok c ->
+  issue idna off exp guard crit issuer serial (now + tz) r = Ok c ->
   (off + tz <= 0)%Z -> (0 <= off + exp + tz)%Z ->
   ca_ok issuer now = true ->
   conv (requested r) = Ok g -> target_clean g = true ->
@@ -328,7 +352,7 @@ Proof.
   apply issue_split in Hi as [n [Hn Hd]].
   apply get_cert_names_spec in Hn as [_ [[g1 [Hg1 Hin]] [Hcn [Hne _]]]].
   rewrite Hg in Hg1. inversion Hg1; subst g1.
-  apply dummy_cert_fields in Hd as [Hiss [Hsig [Hsans [Hccn [Hcrit [Heku [Hnb [Hna [Haki _]]]]]]]]].
+  apply dummy_cert_fields in Hd as [Hiss [Hsig [Hsans [Hccn [Hcrit [Heku [Hnb [Hna [Haki Horg]]]]]]]]].
   unfold x509_ok.
   rewrite Hiss, Hsig, !N.eqb_refl. cbn [andb].
   assert (Ea : akid_ok issuer c = true).
@@ -341,8 +365,7 @@ Proof.
   { rewrite Hsans. destruct (n_alt n); [congruence | reflexivity]. }
   rewrite Es. cbn [andb].
   assert (Ec : has_subject c || c_san_critical c = true).
-  { unfold has_subject. rewrite Hccn, Hcrit. unfold valid_cn. destruct (n_cn n) as [v|]; [|apply orb_true_r].
-    destruct (str_len v <? 64)%N; [reflexivity | apply orb_true_r]. }
+  { apply (subject_or_critical n c); assumption. }
   rewrite Ec. cbn [andb].
   apply name_match_member; [| eapply conv_not_other; exact Hg | exact Hclean].
   rewrite Hsans. apply in_map. exact Hin.
@@ -350,7 +373,7 @@ Qed.
 
 (* T2: the certificate names only identities taken from the request and the upstream certificate *)
 Theorem names_allowed issuer serial now r c :
-  issue idna off exp guard issuer serial now r = Ok c ->
+  issue idna off exp guard crit issuer serial now r = Ok c ->
   (forall g, In g (c_sans c) -> exists g0, g = wire_gname g0 /\ allowed r g0)
   /\ (forall v, c_cn c = Some v -> exists g0, In (wire_gname g0) (c_sans c) /\ allowed r g0 /\ v = str_value g0).
 Proof.
@@ -369,23 +392,33 @@ Qed.
 
 (* T3: issued by the CA, for server authentication, critical SAN when the subject is empty, AKI = issuer SKI *)
 Theorem issued_by_ca issuer serial now r c :
-  issue idna off exp guard issuer serial now r = Ok c ->
+  issue idna off exp guard crit issuer serial now r = Ok c ->
   c_issuer c = ca_subject issuer /\ c_signer c = ca_key issuer
   /\ In EKU_SERVER_AUTH (c_eku c)
   /\ c_sans c <> []
-  /\ (c_cn c = None -> c_san_critical c = true)
+  /\ (has_subject c = false -> c_san_critical c = true)
   /\ (forall s, ca_ski issuer = Some s -> c_aki c = s)
   /\ c_nb c = (now + off)%Z /\ c_na c = (now + off + exp)%Z.
 Proof.
   intros Hi. apply issue_split in Hi as [n [Hn Hd]].
   apply get_cert_names_spec in Hn as [_ [_ [_ [Hne _]]]].
-  apply dummy_cert_fields in Hd as [Hiss [Hsig [Hsans [Hccn [Hcrit [Heku [Hnb [Hna [Haki _]]]]]]]]].
+  apply dummy_cert_fields in Hd as [Hiss [Hsig [Hsans [Hccn [Hcrit [Heku [Hnb [Hna [Haki Horg]]]]]]]]].
   repeat split; try assumption.
   - rewrite Heku. left; reflexivity.
   - rewrite Hsans. destruct (n_alt n); [congruence | discriminate].
-  - rewrite Hccn, Hcrit. unfold valid_cn. destruct (n_cn n) as [v|]; [|reflexivity].
-    destruct (str_len v <? 64)%N; [discriminate | reflexivity].
+  - intros Hs. pose proof (subject_or_critical n c Hccn Hcrit Horg) as H. rewrite Hs in H. exact H.
   - intros s Hs. rewrite Haki, Hs. reflexivity.
+Qed.
+
+(* T3b: RFC 5280 4.2.1.6 both ways -- the SAN is critical exactly when the subject is empty (repaired form) *)
+Theorem san_criticality issuer serial now r c :
+  crit = true ->
+  issue idna off exp guard crit issuer serial now r = Ok c ->
+  c_san_critical c = negb (has_subject c).
+Proof.
+  intros Hc Hi. apply issue_split in Hi as [n [Hn Hd]].
+  apply dummy_cert_fields in Hd as [_ [_ [_ [Hccn [Hcrit [_ [_ [_ [_ Horg]]]]]]]]].
+  eapply subject_iff_not_critical; eassumption.
 Qed.
 
 (* T4: when is a certificate issued at all *)
@@ -419,7 +452,7 @@ Theorem issues issuer serial now r :
   (guard = true \/ upstream_cn_ok r) ->
   (forall n, get_cert_names idna guard serial r = Ok n ->
      n_cn n <> Some [] /\ (forall u, n_crl n = Some u -> is_ascii u = true)) ->
-  exists c, issue idna off exp guard issuer serial now r = Ok c.
+  exists c, issue idna off exp guard crit issuer serial now r = Ok c.
 Proof.
   intros H1 Ha Hup Hn. destruct (names_total serial r H1 Ha Hup) as [n En].
   destruct (Hn n En) as [Hcn Hcrl].
@@ -452,7 +485,7 @@ Qed.
 
 Theorem served_from_any_store issuer serial now st r st' c :
   store_wf st ->
-  issue_on idna off exp guard issuer serial now st r = Ok (st', c) ->
+  issue_on idna off exp guard crit issuer serial now st r = Ok (st', c) ->
   store_wf st'
   /\ (forall g, In g (c_sans c) -> exists g0, g = wire_gname g0 /\ allowed r g0)
   /\ (forall v, c_cn c = Some v -> exists g0, In (wire_gname g0) (c_sans c) /\ allowed r g0 /\ v = str_value g0).
@@ -474,7 +507,7 @@ Proof.
   destruct (store_get (n_cn n, n_alt n) st) as [c0|] eqn:Eg.
   - intros H; inversion H; subst; clear H. split; [exact Hwf|].
     apply store_get_in in Eg. destruct (Hwf _ _ Eg) as [Hs Hc]. apply Hserve; assumption.
-  - destruct (dummy_cert off exp issuer now n) as [c0|e] eqn:Ed; simpl; [|discriminate].
+  - destruct (dummy_cert off exp crit issuer now n) as [c0|e] eqn:Ed; simpl; [|discriminate].
     intros H; inversion H; subst; clear H.
     apply dummy_cert_fields in Ed as [_ [_ [Hsans [Hccn _]]]].
     assert (Hc : forall v, c_cn c = Some v -> n_cn n = Some v).
@@ -494,7 +527,7 @@ Lemma validity_source : forall tz : Z,
 Proof. intros tz H. unfold VALIDITY_OFFSET, CERT_EXPIRY. lia. Qed.
 
 Theorem verifies_source idna issuer serial now tz r c cs g :
-  issue idna VALIDITY_OFFSET CERT_EXPIRY CN_GUARDED issuer serial (now + tz) r = Ok c ->
+  issue idna VALIDITY_OFFSET CERT_EXPIRY CN_GUARDED SAN_CRIT_BY_SUBJECT issuer serial (now + tz) r = Ok c ->
   (-86400 <= tz <= 86400)%Z ->
   ca_ok issuer now = true ->
   ip_or_dns_name idna (requested r) = Ok g -> target_clean g = true ->
@@ -514,7 +547,7 @@ Definition long_cn_req : req :=
 
 (* without the guard an upstream CN of 64 characters (legal in X.509) makes get_cert raise *)
 Lemma unguarded_cn_raises :
-  issue no_idna VALIDITY_OFFSET CERT_EXPIRY false ca0 5 0 long_cn_req = Err EIdna
+  issue no_idna VALIDITY_OFFSET CERT_EXPIRY false false ca0 5 0 long_cn_req = Err EIdna
   /\ encodable no_idna (requested long_cn_req)
   /\ (forall a, r_addr long_cn_req = Some a -> encodable no_idna a).
 Proof.
@@ -527,11 +560,11 @@ Lemma issues_refuted :
   exists r,
     encodable no_idna (requested r)
     /\ (forall a, r_addr r = Some a -> encodable no_idna a)
-    /\ issue no_idna VALIDITY_OFFSET CERT_EXPIRY false ca0 5 0 r = Err EIdna.
+    /\ issue no_idna VALIDITY_OFFSET CERT_EXPIRY false false ca0 5 0 r = Err EIdna.
 Proof. exists long_cn_req. destruct unguarded_cn_raises as [H1 [H2 H3]]. auto. Qed.
 
 Lemma guarded_cn_issues :
-  exists c, issue no_idna VALIDITY_OFFSET CERT_EXPIRY true ca0 5 0 long_cn_req = Ok c
+  exists c, issue no_idna VALIDITY_OFFSET CERT_EXPIRY true false ca0 5 0 long_cn_req = Ok c
             /\ c_sans c = [GDNS (B "example.com")].
 Proof. eexists. split; vm_compute; reflexivity. Qed.
 
@@ -548,7 +581,7 @@ Definition sample_cert : cert :=
     (Some (B "http://crl.example/mitmproxy-5.crl")).
 
 Lemma sample_ok :
-  issue no_idna (-172800) 17193600 false ca0 5 3600 sample_req = Ok sample_cert
+  issue no_idna (-172800) 17193600 false false ca0 5 3600 sample_req = Ok sample_cert
   /\ x509_ok false ca0 sample_cert 0 (THost (B "*.example.com")) = true
   /\ x509_ok false ca0 sample_cert 0 (THost (B "www.example.com")) = true
   /\ x509_ok false ca0 sample_cert 0 (THost (B "a.b.example.com")) = false
@@ -557,3 +590,18 @@ Lemma sample_ok :
   /\ x509_ok true ca0 sample_cert 0 (TIP [x01; x02; x03; x05]) = false
   /\ x509_ok false ca0 sample_cert (17193600 - 172800 + 3601) (THost (B "up.example")) = false.
 Proof. repeat split; vm_compute; reflexivity. Qed.
+
+(* a name of 64 or more characters (no CN) together with an upstream organization: subject not empty *)
+Definition long_name_org_req : req :=
+  mkReq true (Some (repeat x78 63 ++ B ".example.com")) (B "127.0.0.1") None
+        (Some (mkUcert None [] (Some (B "Org")) None)).
+
+Lemma critical_with_subject_unrepaired :
+  exists c, issue no_idna VALIDITY_OFFSET CERT_EXPIRY false false ca0 5 0 long_name_org_req = Ok c
+            /\ has_subject c = true /\ c_san_critical c = true.
+Proof. eexists. repeat split; vm_compute; reflexivity. Qed.
+
+Lemma critical_with_subject_repaired :
+  exists c, issue no_idna VALIDITY_OFFSET CERT_EXPIRY false true ca0 5 0 long_name_org_req = Ok c
+            /\ has_subject c = true /\ c_san_critical c = false.
+Proof. eexists. repeat split; vm_compute; reflexivity. Qed.
